@@ -689,6 +689,9 @@ class Emitter:
                 lines += self._init_field("self->" + fname, f, inner[0])
             elif "baseInit" in c:
                 self.report["base-class initialisers dropped"] += 1
+            elif "delegatingInit" in c and c.get("inner"):
+                self.report["delegating constructors turned into assignment of the delegate's result"] += 1
+                lines.append("  *self = %s;" % self.expr(c["inner"][0]))
             else:
                 raise ExtractionError("unsupported ctor initialiser in %s" % decl.get("name"))
         # fields with in-class default initialisers not mentioned
@@ -791,6 +794,10 @@ class Emitter:
             gh = self.ghost(self.cur_loop_id(), "body_start", ind + 1)
             cond = self.expr(parts[0])
             return pad + "while (%s)\n%s%s" % (cond, lc, self.block(parts[-1], ind, prepend=gh))
+        if k == "DoStmt" and self._is_internal_log(n):
+            # OTEL_INTERNAL_LOG_*: do { if (level > GlobalLogHandler::GetLogLevel()) break; ... Handle(...); } while (false)
+            self.report["internal diagnostic logging statements (OTEL_INTERNAL_LOG_* macro expansions) dropped"] += 1
+            return pad + "/* internal log statement dropped */;"
         if k == "DoStmt":
             body, cond = n["inner"][0], n["inner"][1]
             self.cur["loop"] += 1
@@ -869,6 +876,15 @@ class Emitter:
         self.cur.setdefault("ghost_fired", set()).add((ordinal, where))
         self.report["ghost statements spliced (write ghost variables only)"] += 1
         return "  " * ind + "XC_GHOST(" + g + ")"
+
+    def _is_internal_log(self, n):
+        def has(x):
+            if isinstance(x, dict):
+                if x.get("kind") == "DeclRefExpr" and x.get("referencedDecl", {}).get("name") == "GetLogLevel":
+                    return True
+                return any(has(c) for c in x.get("inner", []))
+            return False
+        return has(n)
 
     def is_dropped_call(self, n):
         return self.dropped_name(n) is not None
@@ -1377,6 +1393,12 @@ class Emitter:
         if ck == "ToVoid":
             return "(void)(%s)" % self.expr(inner)
         t = self.ctype(n["type"])
+        if ck == "BaseToDerived":
+            # static_cast<Derived &>(base) / static_cast<Derived *>(base_ptr): records with dropped (field-less) bases start at the same address
+            self.report["static_cast from a field-less base to the derived class turned into a pointer cast"] += 1
+            if n.get("valueCategory") == "lvalue" and not t.ptr:
+                return "(*(%s *)&(%s))" % (t.base, self.expr(inner))
+            return "(%s)(%s)" % (t.text(), self.expr(inner))
         if t.is_ref:
             return self.expr(inner)
         if ck == "NoOp" and (t.base not in SCALARS.values() or t.ptr):
@@ -1730,6 +1752,11 @@ class Emitter:
                 return "(%s){0}" % rc
             raise ExtractionError("constructor %s of %s not found" % (ctor_sig, tname))
         ctor = cands[0]
+        if body_of(ctor) is None:
+            # declared in the class, defined out of line in the translation unit
+            dd = self.ix.definition_of(ctor["id"])
+            if dd is not None and body_of(dd) is not None:
+                ctor = dd
         if body_of(ctor) is None and not (ctor.get("isImplicit") or ctor.get("explicitlyDefaulted")):
             raise ExtractionError("constructor %s of %s has no body" % (ctor_sig, tname))
         cname = self.need_function(ctor)
